@@ -32,6 +32,8 @@ Definition vm_io_of {St} (lio : lang_io St) (p : policy) : MachineIO St :=
 
 Definition field_of (f : ident * TypeKind) : Field := mkField (fst f) (snd f).
 
+Definition depth {St} (s : RunState St) : nat := List.length (rs_call_state s).
+
 (** Splitting [at_pc] facts about a laid-out piece of code into its parts. *)
 Ltac split_at H :=
   repeat match type of H with
@@ -50,8 +52,51 @@ Ltac lookup :=
     replace b with a by lia; exact H
   end.
 
-Ltac in_range := split; cbn [depth rs_call_state rs_pc]; [lia | intros _; lia].
+Ltac in_range := split; unfold depth; cbn [rs_call_state rs_pc]; [lia | intros _; lia].
 
+
+(** * The fragment the simulation is proved for
+
+    Everything of [Lang.v] except [substruct], [as] (cast), foreign calls and the fact / effect
+    statements of finish blocks ([create], [update], [delete], [emit]). *)
+Fixpoint fr_expr (e : expr) : bool :=
+  match e with
+  | EUnit | EInt _ | EStr _ | EBool _ | EEnum _ _ | ENone | EVar _ | ETodo => true
+  | EWrap _ e | EDot e _ | ENot e | EIs e _ | EReturn e => fr_expr e
+  | EStruct _ fs => fr_fields fs
+  | ESubstruct _ _ | ECast _ _ | EFfi _ _ _ => false
+  | EAnd a b | EOr a b | EBin _ a b | ECoalesce a b => fr_expr a && fr_expr b
+  | EIf c t f => fr_expr c && fr_expr t && fr_expr f
+  | EBlock ss e => fr_stmts ss && fr_expr e
+  | EMatch e arms => fr_expr e && fr_earms arms
+  | ECall _ args | ERecall _ args => fr_exprs args
+  end
+with fr_exprs (es : exprs) : bool :=
+  match es with ENil => true | ECons e r => fr_expr e && fr_exprs r end
+with fr_fields (fs : fields) : bool :=
+  match fs with FNil => true | FCons _ e r => fr_expr e && fr_fields r end
+with fr_stmt (s : stmt) : bool :=
+  match s with
+  | SLet _ e | SReturn e | SDebugAssert e => fr_expr e
+  | SCheck e els => fr_expr e && fr_expr els
+  | SIf bs fb => fr_branches bs && fr_ostmts fb
+  | SMatch e arms => fr_expr e && fr_sarms arms
+  | SFinish ss => fr_stmts ss
+  | SCreate _ _ _ | SUpdate _ _ _ _ | SDelete _ _ | SEmit _ => false
+  | SCall _ args | SRecall _ args => fr_exprs args
+  end
+with fr_stmts (ss : stmts) : bool :=
+  match ss with SNil => true | SCons s r => fr_stmt s && fr_stmts r end
+with fr_ostmts (o : ostmts) : bool :=
+  match o with ONone => true | OSome ss => fr_stmts ss end
+with fr_ovals (o : ovals) : bool :=
+  match o with VNone => true | VSome fs => fr_fields fs end
+with fr_earms (a : earms) : bool :=
+  match a with EANil => true | EACons _ e r => fr_expr e && fr_earms r end
+with fr_sarms (a : sarms) : bool :=
+  match a with SANil => true | SACons _ ss r => fr_stmts ss && fr_sarms r end
+with fr_branches (b : branches) : bool :=
+  match b with BNil => true | BCons c ss r => fr_expr c && fr_stmts ss && fr_branches r end.
 
 Section Sim.
   Context {St : Type}.
@@ -115,11 +160,14 @@ Section Sim.
   Variable outer : scope_t.
   Variable base : list Value.
   Variable qi : list (Fact * list query_item).
+  (** whether the frame begins with [SaveSP] (functions with a return type) *)
+  Variable has_sp : bool.
+  Definition slack : nat := if has_sp then 1%nat else 0%nat.
 
-  Definition depth (s : RS) : nat := List.length (rs_call_state s).
-  (** every visited state is at this depth or deeper, and at this depth inside [lo, hi) *)
+  (** every visited state is at this depth or deeper (one less while a [Return] executes, after
+      [RestoreSP] dropped the saved stack pointer), and at this depth inside [lo, hi) *)
   Definition Qr (lo hi : N) (s : RS) : Prop :=
-    (List.length cs <= depth s)%nat /\ (depth s = List.length cs -> lo <= rs_pc s < hi).
+    (List.length cs <= depth s + slack)%nat /\ (depth s = List.length cs -> lo <= rs_pc s < hi).
 
   Definition st (en : env) (sg : list Value) (pc : N) (w : world St) : RS :=
     S (en :: outer) (sg ++ base) cs pc (w_ctx w) qi (w_io w).
@@ -139,7 +187,7 @@ Section Sim.
   Definition sim_out {A} (Q : RS -> Prop) (s : RS) (o : outcome St A) (fin : A -> world St -> RS) : Prop :=
     match o with
     | OVal a w => mruno Q s (MTo (fin a w))
-    | ORet v w => hd 0 cs = len base -> cs <> [] -> exists r, is_ret v w r /\ mruno Q s r
+    | ORet v w => has_sp = true -> hd 0 cs = len base -> cs <> [] -> exists r, is_ret v w r /\ mruno Q s r
     | OExit r w => exists s', mruno Q s (MExit r s') /\ rs_io s' = w_io w /\ rs_ctx s' = w_ctx w
     | OErr e w => exists s', mruno Q s (MErr e s') /\ rs_io s' = w_io w
     | OWrong | OFuel => True
@@ -153,7 +201,7 @@ Section Sim.
   Proof.
     intros H. destruct o; cbn; auto.
     - intros H1. eapply mruno_trans; eauto.
-    - intros H1 Hb Hc. destruct (H1 Hb Hc) as (r & Hr & Hm). exists r; split; auto. eapply mruno_trans; eauto.
+    - intros H1 Ha Hb Hc. destruct (H1 Ha Hb Hc) as (r & Hr & Hm). exists r; split; auto. eapply mruno_trans; eauto.
     - intros (s' & Hm & Hi). exists s'; split; auto. eapply mruno_trans; eauto.
     - intros (s' & Hm & Hi). exists s'; split; auto. eapply mruno_trans; eauto.
   Qed.
@@ -168,11 +216,21 @@ Section Sim.
     eapply sim_out_trans; eauto.
   Qed.
 
+  (** machine steps after the value has been computed *)
+  Lemma sim_post {A} (Q : RS -> Prop) s (o : outcome St A) fin fin' :
+    sim_out Q s o fin ->
+    (forall a w, o = OVal a w -> sim_out Q (fin a w) (OVal a w) fin') ->
+    sim_out Q s o fin'.
+  Proof.
+    intros H Hk. destruct o; cbn in *; auto.
+    eapply mruno_trans; eauto.
+  Qed.
+
   Lemma sim_lift {A} (Q : RS -> Prop) s s1 (out : outcome St A) fin :
     (forall o, mruno Q s1 o -> mruno Q s o) -> sim_out Q s1 out fin -> sim_out Q s out fin.
   Proof.
     intros H. destruct out; cbn; auto.
-    - intros H1 Hb Hc. destruct (H1 Hb Hc) as (r & Hr & Hm). exists r; split; auto.
+    - intros H1 Ha Hb Hc. destruct (H1 Ha Hb Hc) as (r & Hr & Hm). exists r; split; auto.
     - intros (s' & Hm & Hi). exists s'; split; auto.
     - intros (s' & Hm & Hi). exists s'; split; auto.
   Qed.
@@ -203,20 +261,1007 @@ Section Sim.
 
   (** one instruction, then the rest *)
   Ltac vstep :=
+    cbn [app];
     eapply sim_lift;
     [ let o := fresh "o" in let Hk := fresh "Hk" in intros o Hk;
       first
         [ eapply (s_push dbg io m Hcm Hlen);
-          [ lookup | cbn [Vm.exec]; vm_unf; reflexivity | reflexivity | in_range | exact Hk ]
-        | eapply (s_go dbg io m Hcm Hlen);
+          [ lookup | cbn [Vm.exec]; vm_unf_np; reflexivity | reflexivity | in_range | exact Hk ]
+        | eapply (s_go dbg io m Hlen);
           [ lookup | cbn [Vm.exec]; vm_unf; reflexivity | reflexivity | in_range | exact Hk ] ]
     | cbv beta iota delta [set_pc set_stack rs_stack rs_scope rs_pc rs_call_state rs_ctx rs_io rs_query_iters] ].
 
-  Lemma case_EInt z : P_expr (EInt z).
-  Proof.
-    intros lo hi en sg pc w Hat Hlo Hhi. rewrite eval_expr_EInt. rewrite sz_expr_EInt in *. rewrite d_expr_EInt in Hat.
-    split_at Hat. unfold st. cbn [sim_out].
-    vstep. Show.
-  Abort.
-End Sim.
+  Ltac vjump :=
+    cbn [app];
+    eapply sim_lift;
+    [ let o := fresh "o" in let Hk := fresh "Hk" in intros o Hk;
+      eapply (s_jump dbg io m Hlen);
+      [ lookup | cbn [Vm.exec]; vm_unf; reflexivity | in_range | exact Hk ]
+    | ].
 
+  Lemma sim_out_fin {A} (Q : RS -> Prop) s (o : outcome St A) fin fin' :
+    (forall a w, fin a w = fin' a w) -> sim_out Q s o fin -> sim_out Q s o fin'.
+  Proof. intros H. destruct o; cbn; auto. rewrite H. auto. Qed.
+
+  Ltac vdone := cbn [sim_out]; apply mruno_done'; cbn [const_to_value app]; try reflexivity; f_equal; try lia.
+  (* the address a piece is embedded at, written as in its own layout *)
+  Ltac norm_at :=
+    repeat match goal with
+           | H : at_pc _ ?A (CompileDirect.d_expr _ _ _ _ _ ?B _) |- _ =>
+             lazymatch A with B => fail | _ => replace A with B in H by lia end
+           | H : at_pc _ ?A (CompileDirect.d_exprs _ _ _ _ _ ?B _) |- _ =>
+             lazymatch A with B => fail | _ => replace A with B in H by lia end
+           | H : at_pc _ ?A (CompileDirect.d_fields _ _ _ _ _ ?B _) |- _ =>
+             lazymatch A with B => fail | _ => replace A with B in H by lia end
+           | H : at_pc _ ?A (CompileDirect.d_stmt _ _ _ _ _ ?B _) |- _ =>
+             lazymatch A with B => fail | _ => replace A with B in H by lia end
+           | H : at_pc _ ?A (CompileDirect.d_stmts _ _ _ _ _ ?B _) |- _ =>
+             lazymatch A with B => fail | _ => replace A with B in H by lia end
+           | H : at_pc _ ?A (CompileDirect.d_earms _ _ _ _ _ ?B _ _) |- _ =>
+             lazymatch A with B => fail | _ => replace A with B in H by lia end
+           | H : at_pc _ ?A (CompileDirect.d_sarms _ _ _ _ _ ?B _ _) |- _ =>
+             lazymatch A with B => fail | _ => replace A with B in H by lia end
+           | H : at_pc _ ?A (CompileDirect.d_branches _ _ _ _ _ ?B _ _) |- _ =>
+             lazymatch A with B => fail | _ => replace A with B in H by lia end
+           end.
+  Ltac start_case Hat :=
+    autorewrite with deq in *; cbv zeta in Hat; split_at Hat; norm_at.
+
+  (** applying an induction hypothesis at a state whose pc / stack are equal to the expected ones *)
+  Lemma P_expr_at e (IH : P_expr e) lo hi en sg stk pc pc' w fin' :
+    at_pc m pc (d_expr pc e) -> pc' = pc -> stk = sg ++ base -> lo <= pc -> pc + sz_expr e <= hi ->
+    (forall a w', st en (a :: sg) (pc + sz_expr e) w' = fin' a w') ->
+    sim_out (Qr lo hi) (S (en :: outer) stk cs pc' (w_ctx w) qi (w_io w)) (eval_expr en w e) fin'.
+  Proof.
+    intros Hat -> -> Hlo Hhi Hf. eapply sim_out_fin; [exact Hf|]. apply IH; auto.
+  Qed.
+  Ltac fin_eq := let a := fresh in let w := fresh in intros a w; first [reflexivity | unfold st; f_equal; lia].
+  Ltac use_IH IH sg' :=
+    eapply (P_expr_at _ IH _ _ _ sg'); [eassumption | | | | | ]; [lia | reflexivity | lia | lia | fin_eq].
+
+  Lemma case_EUnit : P_expr EUnit.
+  Proof. intros lo hi en sg pc w Hat Hlo Hhi. rewrite eval_expr_EUnit. start_case Hat. unfold st. vstep. vdone. Qed.
+  Lemma case_EInt z : P_expr (EInt z).
+  Proof. intros lo hi en sg pc w Hat Hlo Hhi. rewrite eval_expr_EInt. start_case Hat. unfold st. vstep. vdone. Qed.
+  Lemma case_EStr z : P_expr (EStr z).
+  Proof. intros lo hi en sg pc w Hat Hlo Hhi. rewrite eval_expr_EStr. start_case Hat. unfold st. vstep. vdone. Qed.
+  Lemma case_EBool z : P_expr (EBool z).
+  Proof. intros lo hi en sg pc w Hat Hlo Hhi. rewrite eval_expr_EBool. start_case Hat. unfold st. vstep. vdone. Qed.
+  Lemma case_ENone : P_expr ENone.
+  Proof. intros lo hi en sg pc w Hat Hlo Hhi. rewrite eval_expr_ENone. start_case Hat. unfold st. vstep. vdone. Qed.
+  Lemma case_EEnum en' v : P_expr (EEnum en' v).
+  Proof.
+    intros lo hi en sg pc w Hat Hlo Hhi. rewrite eval_expr_EEnum. start_case Hat.
+    destruct (enum_value p en' v); [|exact I]. unfold st. vstep. vdone.
+  Qed.
+  Lemma case_ETodo : P_expr ETodo.
+  Proof.
+    intros lo hi en sg pc w Hat Hlo Hhi. rewrite eval_expr_ETodo. start_case Hat. unfold st. cbn [sim_out].
+    eexists. split; [eapply (s_exit dbg io m Hlen); [lookup|cbn [Vm.exec]; vm_unf; reflexivity|in_range]|].
+    split; reflexivity.
+  Qed.
+
+  Lemma case_EAnd a b : P_expr a -> P_expr b -> P_expr (EAnd a b).
+  Proof.
+    intros IHa IHb lo hi en sg pc w Hat Hlo Hhi. rewrite eval_expr_EAnd. start_case Hat. unfold st.
+    eapply sim_bind; [use_IH IHa sg|]. intros va w1 _.
+    destruct va as [| | [|] | | | | | | | | |]; try exact I; unfold st.
+    - vjump. use_IH IHb sg.
+    - vstep. vstep. vjump. vdone.
+  Qed.
+
+  Lemma case_EOr a b : P_expr a -> P_expr b -> P_expr (EOr a b).
+  Proof.
+    intros IHa IHb lo hi en sg pc w Hat Hlo Hhi. rewrite eval_expr_EOr. start_case Hat. unfold st.
+    eapply sim_bind; [use_IH IHa sg|]. intros va w1 _.
+    destruct va as [| | [|] | | | | | | | | |]; try exact I; unfold st.
+    - vjump. vstep. vdone.
+    - vstep. eapply sim_post; [use_IH IHb sg|]. intros vb w2 _. unfold st. vjump. vdone.
+  Qed.
+
+  Lemma case_ENot a : P_expr a -> P_expr (ENot a).
+  Proof.
+    intros IHa lo hi en sg pc w Hat Hlo Hhi. rewrite eval_expr_ENot. start_case Hat. unfold st.
+    eapply sim_bind; [use_IH IHa sg|]. intros va w1 _.
+    destruct va; try exact I; unfold st. vstep. vdone.
+  Qed.
+
+  Lemma case_EWrap wt e : P_expr e -> P_expr (EWrap wt e).
+  Proof.
+    intros IHe lo hi en sg pc w Hat Hlo Hhi. rewrite eval_expr_EWrap. start_case Hat. unfold st.
+    eapply sim_bind; [use_IH IHe sg|]. intros v w1 _. unfold st. vstep.
+    cbn [sim_out]. apply mruno_done'. destruct wt; cbn [wrap]; f_equal; lia.
+  Qed.
+
+  Lemma case_EVar x : P_expr (EVar x).
+  Proof.
+    intros lo hi en sg pc w Hat Hlo Hhi. rewrite eval_expr_EVar. start_case Hat.
+    destruct (env_get G x en) as [v|] eqn:E; [|exact I]. unfold st.
+    eapply sim_lift.
+    - intros o Hk. eapply (s_push dbg io m Hcm Hlen); [lookup| | |in_range|exact Hk].
+      + cbn [Vm.exec]. vm_unf_np. rewrite (scope_get_env _ _ _ E). reflexivity.
+      + reflexivity.
+    - cbv beta iota delta [set_pc set_stack rs_stack rs_scope rs_pc rs_call_state rs_ctx rs_io rs_query_iters].
+      vdone.
+  Qed.
+
+  Lemma amap_get_remove {V} (f : ident) (l : amap V) x :
+    amap_get f l = Some x -> exists r, amap_remove f l = Some (x, r).
+  Proof.
+    induction l as [|[k v] l IH]; cbn [amap_get amap_remove]; [discriminate|].
+    destruct (String.eqb f k).
+    - intros H; inversion H; subst. eauto.
+    - intros H. destruct (IH H) as [r Hr]. rewrite Hr. eauto.
+  Qed.
+
+  Lemma case_EDot e f : P_expr e -> P_expr (EDot e f).
+  Proof.
+    intros IHe lo hi en sg pc w Hat Hlo Hhi. rewrite eval_expr_EDot. start_case Hat. unfold st.
+    eapply sim_bind; [use_IH IHe sg|]. intros v w1 _.
+    destruct v as [| | | | |sv| | | | | |]; try exact I.
+    destruct (amap_get f (Struct_fields sv)) as [x|] eqn:E; [|exact I].
+    destruct (amap_get_remove _ _ _ E) as [r Hr]. unfold st.
+    eapply sim_lift.
+    - intros o Hk. eapply (s_push dbg io m Hcm Hlen); [lookup| | |in_range|exact Hk].
+      + cbn [Vm.exec app]. vm_unf_np. rewrite Hr. reflexivity.
+      + reflexivity.
+    - cbv beta iota delta [set_pc set_stack rs_stack rs_scope rs_pc rs_call_state rs_ctx rs_io rs_query_iters].
+      vdone.
+  Qed.
+
+  Lemma case_EIs e some : P_expr e -> P_expr (EIs e some).
+  Proof.
+    intros IHe lo hi en sg pc w Hat Hlo Hhi. rewrite eval_expr_EIs. start_case Hat. unfold st.
+    eapply sim_bind; [use_IH IHe sg|]. intros v w1 _. unfold st.
+    destruct some; cbn [app] in *; split_at Hat.
+    - vstep. cbn [sim_out]. apply mruno_done'. f_equal; try lia.
+      all: try (destruct v as [| | | | | | | | | |[?|]|[?|?]]; reflexivity).
+    - vstep. vstep. cbn [sim_out]. apply mruno_done'. f_equal; try lia.
+      all: try (destruct v as [| | | | | | | | | |[?|]|[?|?]]; reflexivity).
+  Qed.
+
+  Lemma case_EIf c t f : P_expr c -> P_expr t -> P_expr f -> P_expr (EIf c t f).
+  Proof.
+    intros IHc IHt IHf lo hi en sg pc w Hat Hlo Hhi. rewrite eval_expr_EIf. start_case Hat. unfold st.
+    eapply sim_bind; [use_IH IHc sg|]. intros vc w1 _.
+    destruct vc as [| | [|] | | | | | | | | |]; try exact I; unfold st.
+    - vjump. use_IH IHt sg.
+    - vstep. eapply sim_post; [use_IH IHf sg|]. intros vb w2 _. unfold st. vjump. vdone.
+  Qed.
+
+  Lemma case_ECoalesce a b : P_expr a -> P_expr b -> P_expr (ECoalesce a b).
+  Proof.
+    intros IHa IHb lo hi en sg pc w Hat Hlo Hhi. rewrite eval_expr_ECoalesce. start_case Hat. unfold st.
+    eapply sim_bind; [use_IH IHa sg|]. intros va w1 _.
+    destruct va as [| | | | | | | | | |[x|]|]; try exact I; unfold st.
+    - vstep. vstep. vjump. vstep. vdone.
+    - vstep. vstep. vstep. vstep. eapply sim_post; [use_IH IHb sg|]. intros vb w2 _. unfold st. vjump. vdone.
+  Qed.
+
+  Lemma case_EBin op a b : P_expr a -> P_expr b -> P_expr (EBin op a b).
+  Proof.
+    intros IHa IHb lo hi en sg pc w Hat Hlo Hhi. rewrite eval_expr_EBin. start_case Hat. unfold st.
+    eapply sim_bind; [use_IH IHa sg|]. intros va w1 _. unfold st.
+    eapply sim_bind; [use_IH IHb (va :: sg)|]. intros vb w2 _. unfold st.
+    destruct op; cbn [cmp_instrs] in *; autorewrite with len in *; split_at Hat; cbn [eval_binop int_op].
+    - vstep. vdone.
+    - vstep. vstep. vdone.
+    - destruct va; try exact I; destruct vb; try exact I. vstep. vdone.
+    - destruct va; try exact I; destruct vb; try exact I. vstep. vdone.
+    - destruct va; try exact I; destruct vb; try exact I. vstep. vstep. vdone.
+    - destruct va; try exact I; destruct vb; try exact I. vstep. vstep. vdone.
+  Qed.
+
+  (** ** Statements *)
+  Definition P_stmt (s : stmt) : Prop := forall lo hi en sg pc w,
+    at_pc m pc (d_stmt pc s) -> lo <= pc -> pc + sz_stmt s <= hi ->
+    sim_out (Qr lo hi) (st en sg pc w) (eval_stmt en w s) (fun en' w' => st en' sg (pc + sz_stmt s) w').
+  Definition P_stmts (ss : stmts) : Prop := forall lo hi en sg pc w,
+    at_pc m pc (d_stmts pc ss) -> lo <= pc -> pc + sz_stmts ss <= hi ->
+    sim_out (Qr lo hi) (st en sg pc w) (eval_stmts en w ss) (fun en' w' => st en' sg (pc + sz_stmts ss) w').
+
+  Lemma P_stmts_at ss (IH : P_stmts ss) lo hi en sg stk pc pc' w fin' :
+    at_pc m pc (d_stmts pc ss) -> pc' = pc -> stk = sg ++ base -> lo <= pc -> pc + sz_stmts ss <= hi ->
+    (forall a w', st a sg (pc + sz_stmts ss) w' = fin' a w') ->
+    sim_out (Qr lo hi) (S (en :: outer) stk cs pc' (w_ctx w) qi (w_io w)) (eval_stmts en w ss) fin'.
+  Proof. intros Hat -> -> Hlo Hhi Hf. eapply sim_out_fin; [exact Hf|]. apply IH; auto. Qed.
+  Ltac use_IHss IH en' sg' :=
+    eapply (P_stmts_at _ IH _ _ en' sg'); [eassumption | | | | | ]; [lia | reflexivity | lia | lia | fin_eq].
+
+  (** statements only ever extend the innermost block *)
+  Lemma env_set_tail x v en en' : env_set G x v en = Some en' -> exists b, en' = b :: tl en.
+  Proof.
+    unfold env_set. destruct (amap_contains x G); [discriminate|].
+    destruct (existsb _ en); [discriminate|]. destruct en; [discriminate|]. intros H; inversion H. eauto.
+  Qed.
+
+  Ltac inv_obind H :=
+    repeat match type of H with
+           | obind ?o _ = OVal _ _ => let E := fresh "E" in destruct o eqn:E; cbn [obind] in H; try discriminate
+           | match ?x with _ => _ end = OVal _ _ => let E := fresh "E" in destruct x eqn:E; try discriminate
+           | (let '(_, _) := ?x in _) = OVal _ _ => let E := fresh "E" in destruct x eqn:E; try discriminate
+           end.
+
+  Lemma eval_branches_some bs : forall en w e w', eval_branches en w bs = OVal (Some e) w' -> e = en.
+  Proof.
+    induction bs as [|c ss r IH]; intros en w e w' H; autorewrite with evq in H.
+    - discriminate.
+    - inv_obind H; try (inversion H; subst; reflexivity). eapply IH; eauto.
+  Qed.
+
+  Lemma eval_sarms_same arms : forall en w v e w', eval_sarms en w v arms = OVal e w' -> e = en.
+  Proof.
+    induction arms as [|pt ss r IH]; intros en w v e w' H; autorewrite with evq in H.
+    - discriminate.
+    - inv_obind H; try (inversion H; subst; reflexivity). eapply IH; eauto.
+  Qed.
+
+  Lemma eval_stmt_tail s en w en' w' : eval_stmt en w s = OVal en' w' -> en <> [] -> exists b, en' = b :: tl en.
+  Proof.
+    intros H Hne. destruct en as [|b0 r]; [congruence|]. cbn [tl].
+    destruct s; autorewrite with evq in H; inv_obind H;
+      try (inversion H; subst; eauto; fail);
+      try (match goal with E : env_set _ _ _ _ = Some _ |- _ => apply env_set_tail in E; inversion H; subst; exact E end).
+    all: try match goal with E : eval_branches _ _ _ = OVal (Some _) _ |- _ => apply eval_branches_some in E; inversion H; subst; eauto end.
+    apply eval_sarms_same in H. subst. eauto.
+  Qed.
+
+  Lemma eval_stmts_tail ss : forall en w en' w', eval_stmts en w ss = OVal en' w' -> en <> [] -> exists b, en' = b :: tl en.
+  Proof.
+    induction ss as [|s r IH]; intros en w en' w' H Hne; autorewrite with evq in H.
+    - inversion H; subst. destruct en'; [congruence|]. eauto.
+    - inv_obind H. destruct (eval_stmt_tail _ _ _ _ _ E Hne) as [b ->].
+      destruct (IH _ _ _ _ H) as [b' ->]; [discriminate|]. cbn [tl]. eauto.
+  Qed.
+
+  Lemma case_EBlock ss e : P_stmts ss -> P_expr e -> P_expr (EBlock ss e).
+  Proof.
+    intros IHss IHe lo hi en sg pc w Hat Hlo Hhi. rewrite eval_expr_EBlock. start_case Hat. unfold st.
+    vstep.
+    eapply sim_bind; [use_IHss IHss (env_push en) sg|]. intros en1 w1 E1.
+    destruct (eval_stmts_tail _ _ _ _ _ E1) as [b Hb]; [discriminate|]. cbn [tl env_push] in Hb. subst en1. unfold st.
+    eapply sim_post; [use_IH IHe sg|]. intros v w2 _. unfold st.
+    vstep. vdone.
+  Qed.
+
+  Lemma case_SNil : P_stmts SNil.
+  Proof.
+    intros lo hi en sg pc w Hat Hlo Hhi. rewrite eval_stmts_SNil. autorewrite with deq in *. cbn [sim_out].
+    apply mruno_done'. unfold st. f_equal. lia.
+  Qed.
+  Lemma case_SCons s ss : P_stmt s -> P_stmts ss -> P_stmts (SCons s ss).
+  Proof.
+    intros IHs IHss lo hi en sg pc w Hat Hlo Hhi. rewrite eval_stmts_SCons. start_case Hat.
+    eapply sim_bind; [eapply IHs; eauto; lia|]. intros en1 w1 _.
+    eapply sim_out_fin; [|eapply IHss; eauto; lia]. fin_eq.
+  Qed.
+
+  Lemma case_SLet x e : P_expr e -> P_stmt (SLet x e).
+  Proof.
+    intros IHe lo hi en sg pc w Hat Hlo Hhi. rewrite eval_stmt_SLet. start_case Hat. unfold st.
+    eapply sim_bind; [use_IH IHe sg|]. intros v w1 _.
+    destruct (env_set G x v en) as [en'|] eqn:E; [|exact I]. unfold st.
+    eapply sim_lift.
+    - intros o Hk. eapply (s_go dbg io m Hlen); [lookup| | |in_range|exact Hk].
+      + cbn [Vm.exec app]. vm_unf. rewrite (scope_set_env _ _ _ _ E). reflexivity.
+      + reflexivity.
+    - cbv beta iota delta [set_pc set_stack rs_stack rs_scope rs_pc rs_call_state rs_ctx rs_io rs_query_iters].
+      vdone.
+  Qed.
+
+  (** ** Returning *)
+  Lemma pop_while_gt_base sg : pop_while_gt (sg ++ base) (len base) = base.
+  Proof.
+    induction sg as [|x sg IH]; cbn [app].
+    - destruct base as [|y r] eqn:E; [reflexivity|]. cbn [pop_while_gt].
+      destruct (len (y :: r) <? len (y :: r)) eqn:E1; [lia|reflexivity].
+    - cbn [pop_while_gt]. destruct (len base <? len (x :: sg ++ base)) eqn:E1; [exact IH|].
+      autorewrite with len in E1. lia.
+  Qed.
+
+  Lemma ss_small : STACK_SIZE + 1 <= usize_max.
+  Proof. intros H. vm_compute in H. discriminate. Qed.
+
+  Lemma ret_sim lo hi en sg pc v w :
+    nth_error (progmem m) (N.to_nat pc) = Some I_RestoreSP ->
+    nth_error (progmem m) (N.to_nat (pc + 1)) = Some I_Return ->
+    lo <= pc -> pc + 2 <= hi ->
+    has_sp = true -> hd 0 cs = len base -> cs <> [] ->
+    exists r, is_ret v w r /\ mruno (Qr lo hi) (st en (v :: sg) pc w) r.
+  Proof.
+    intros H1 H2 Hlo Hhi Hhas Hsp Hne.
+    assert (Hslack : slack = 1%nat) by (unfold slack; rewrite Hhas; reflexivity).
+    destruct (Wb_dec (st en (v :: sg) pc w)) as [Hw|Hw].
+    2:{ (* outside the representation invariant *)
+        unfold is_ret. destruct cs as [|sp [|ra cs']] eqn:Ecs; [congruence| |]; cbn [hd] in Hsp.
+        - exists (MExit ER_Normal (S (en :: outer) (v :: base) [] pc (w_ctx w) qi (w_io w))).
+          split; [split; [exact Hsp|exists (en :: outer), pc; reflexivity]|apply mruno_bad; exact Hw].
+        - eexists. split; [split; [exact Hsp|reflexivity]|apply mruno_bad; exact Hw]. }
+    assert (Hbase : len base <= STACK_SIZE).
+    { destruct Hw as [Hw _]. unfold st in Hw. cbn [rs_stack] in Hw. autorewrite with len in Hw. lia. }
+    assert (Hra : forall a, In a cs -> a < usize_max).
+    { destruct Hw as [_ Hw]. unfold st in Hw. cbn [rs_call_state] in Hw. rewrite Forall_forall in Hw. exact Hw. }
+    clear Hw. unfold is_ret, st.
+    destruct cs as [|sp rest] eqn:Ecs; [congruence|]. cbn [hd] in Hsp. subst sp.
+    pose proof ss_small as Hss.
+    assert (Hadd : usize_checked_add (len base) 1 = Some (len base + 1)).
+    { unfold usize_checked_add. destruct (len base + 1 <=? usize_max) eqn:E; [reflexivity|lia]. }
+    (* after RestoreSP: the value on top of the base stack, the saved pointer gone *)
+    assert (Hrs : forall o,
+      mruno (Qr lo hi) (S (en :: outer) (v :: base) rest (pc + 1) (w_ctx w) qi (w_io w)) o ->
+      mruno (Qr lo hi) (S (en :: outer) ((v :: sg) ++ base) (len base :: rest) pc (w_ctx w) qi (w_io w)) o).
+    { intros o Hk. cbn [app]. destruct sg as [|x sg'].
+      - eapply (s_go dbg io m Hlen); [lookup| | |unfold Qr; rewrite Ecs; in_range|].
+        + cbn [Vm.exec app]. vm_unf. rewrite Hadd.
+          replace (len (v :: base) ?= len base + 1) with Eq
+            by (symmetry; apply N.compare_eq_iff; autorewrite with len; lia). reflexivity.
+        + reflexivity.
+        + exact Hk.
+      - destruct (len base <? STACK_SIZE) eqn:Efull.
+        + eapply (s_go dbg io m Hlen); [lookup| | |unfold Qr; rewrite Ecs; in_range|].
+          * cbn [Vm.exec app]. vm_unf. rewrite Hadd.
+            replace (len (v :: x :: sg' ++ base) ?= len base + 1) with Gt
+              by (symmetry; apply N.compare_gt_iff; autorewrite with len; lia).
+            cbv beta iota zeta delta [bind pop_nopos pop_with gets pop_value modify set_stack rs_stack push_nopos push_with push_value
+                                      rs_scope rs_call_state rs_pc rs_ctx rs_query_iters rs_io].
+            change (x :: sg' ++ base) with ((x :: sg') ++ base). rewrite pop_while_gt_base. rewrite Efull. reflexivity.
+          * reflexivity.
+          * exact Hk.
+        + eapply (s_ovf dbg io m Hlen); [lookup| | |unfold Qr; rewrite Ecs; in_range].
+          * cbn [Vm.exec app]. vm_unf. rewrite Hadd.
+            replace (len (v :: x :: sg' ++ base) ?= len base + 1) with Gt
+              by (symmetry; apply N.compare_gt_iff; autorewrite with len; lia).
+            cbv beta iota zeta delta [bind pop_nopos pop_with gets pop_value modify set_stack rs_stack push_nopos push_with push_value
+                                      rs_scope rs_call_state rs_pc rs_ctx rs_query_iters rs_io fail_nopos].
+            change (x :: sg' ++ base) with ((x :: sg') ++ base). rewrite pop_while_gt_base. rewrite Efull. reflexivity.
+          * reflexivity. }
+    destruct rest as [|ra cs'].
+    - eexists. split; [split; [reflexivity|do 2 eexists; reflexivity]|].
+      apply Hrs. eapply (s_exit dbg io m Hlen); [lookup|cbn [Vm.exec]; vm_unf; reflexivity|].
+      unfold Qr; rewrite Ecs; split; unfold depth; cbn [rs_call_state rs_pc List.length]; [try rewrite Hslack; lia|intros; lia].
+    - eexists. split; [split; [reflexivity|reflexivity]|].
+      apply Hrs. eapply mruno_step; [| |apply mruno_done].
+      + unfold Qr; rewrite Ecs; split; unfold depth; cbn [rs_call_state rs_pc List.length]; [try rewrite Hslack; lia|intros; lia].
+      + rewrite (step_at dbg io m Hlen _ I_Return) by lookup.
+        cbn [Vm.exec]. vm_unf. cbv beta iota zeta delta [advance_pc bind gets rs_pc modify set_pc rs_scope rs_stack rs_call_state rs_ctx rs_query_iters rs_io].
+        assert (Hr : usize_checked_add ra 1 = Some (ra + 1)).
+        { unfold usize_checked_add. assert (ra < usize_max) by (apply Hra; try rewrite Ecs; cbn; auto).
+          destruct (ra + 1 <=? usize_max) eqn:E; [reflexivity|lia]. }
+        rewrite Hr. reflexivity.
+  Qed.
+
+  Lemma case_EReturn e : P_expr e -> P_expr (EReturn e).
+  Proof.
+    intros IHe lo hi en sg pc w Hat Hlo Hhi. rewrite eval_expr_EReturn. start_case Hat. unfold st.
+    eapply sim_bind; [use_IH IHe sg|]. intros v w1 _. cbn [sim_out]. intros Hhas Hsp Hne.
+    eapply ret_sim; eauto; try lia.
+  Qed.
+  Lemma case_SReturn e : P_expr e -> P_stmt (SReturn e).
+  Proof.
+    intros IHe lo hi en sg pc w Hat Hlo Hhi. rewrite eval_stmt_SReturn. start_case Hat. unfold st.
+    eapply sim_bind; [use_IH IHe sg|]. intros v w1 _. cbn [sim_out]. intros Hhas Hsp Hne.
+    eapply ret_sim; eauto; try lia.
+  Qed.
+
+  Lemma case_SCheck e els : P_expr e -> P_expr els -> P_stmt (SCheck e els).
+  Proof.
+    intros IHe IHels lo hi en sg pc w Hat Hlo Hhi. rewrite eval_stmt_SCheck. start_case Hat. unfold st.
+    eapply sim_bind; [use_IH IHe sg|]. intros v w1 _.
+    destruct v as [| | [|] | | | | | | | | |]; try exact I; unfold st.
+    - vjump. vdone.
+    - vstep. eapply sim_bind; [use_IH IHels sg|]. intros; exact I.
+  Qed.
+
+  Lemma dbg_on e pc en w : is_debug = true ->
+    d_stmt pc (SDebugAssert e) = d_expr pc e ++ [I_Branch (T_Resolved (pc + sz_expr e + 2)); I_Exit ER_Panic]
+    /\ sz_stmt (SDebugAssert e) = sz_expr e + 2
+    /\ eval_stmt en w (SDebugAssert e)
+       = obind (eval_expr en w e) (fun v w => match v with
+                                              | V_Bool true => OVal en w
+                                              | V_Bool false => OExit ER_Panic w
+                                              | _ => OWrong
+                                              end).
+  Proof. intros H. destruct is_debug; [|discriminate]. repeat split. Qed.
+  Lemma dbg_off e pc en w : is_debug = false ->
+    d_stmt pc (SDebugAssert e) = [] /\ sz_stmt (SDebugAssert e) = 0 /\ eval_stmt en w (SDebugAssert e) = OVal en w.
+  Proof. intros H. destruct is_debug; [discriminate|]. repeat split. Qed.
+
+  Lemma case_SDebugAssert e : P_expr e -> P_stmt (SDebugAssert e).
+  Proof.
+    intros IHe lo hi en sg pc w Hat Hlo Hhi.
+    destruct (Bool.bool_dec is_debug true) as [Ed|Ed].
+    - destruct (dbg_on e pc en w Ed) as (Hd & Hs & He). rewrite Hd in Hat. rewrite Hs in *. rewrite He.
+      split_at Hat; norm_at. unfold st.
+      eapply sim_bind; [use_IH IHe sg|]. intros v w1 _.
+      destruct v as [| | [|] | | | | | | | | |]; try exact I; unfold st.
+      + vjump. vdone.
+      + vstep. cbn [sim_out]. eexists. split; [eapply (s_exit dbg io m Hlen); [lookup|cbn [Vm.exec]; vm_unf; reflexivity|in_range]|].
+        split; reflexivity.
+    - apply Bool.not_true_is_false in Ed. destruct (dbg_off e pc en w Ed) as (Hd & Hs & He). rewrite Hs in *. rewrite He.
+      cbn [sim_out]. apply mruno_done'. unfold st. f_equal. lia.
+  Qed.
+
+  (** ** if statements *)
+  Definition P_branches (bs : branches) : Prop := forall lo hi en sg pc endl w,
+    at_pc m pc (d_branches pc endl bs) -> lo <= pc -> pc + sz_branches bs <= hi ->
+    sim_out (Qr lo hi) (st en sg pc w) (eval_branches en w bs)
+            (fun r w' => match r with
+                         | Some _ => st en sg endl w'
+                         | None => st en sg (pc + sz_branches bs) w'
+                         end).
+  Definition P_ostmts (o : ostmts) : Prop := match o with ONone => True | OSome ss => P_stmts ss end.
+
+  Lemma case_BNil : P_branches BNil.
+  Proof.
+    intros lo hi en sg pc endl w Hat Hlo Hhi. rewrite eval_branches_BNil. autorewrite with deq in *.
+    cbn [sim_out]. apply mruno_done'. unfold st. f_equal. lia.
+  Qed.
+  Lemma case_BCons c ss bs : P_expr c -> P_stmts ss -> P_branches bs -> P_branches (BCons c ss bs).
+  Proof.
+    intros IHc IHss IHbs lo hi en sg pc endl w Hat Hlo Hhi. rewrite eval_branches_BCons. start_case Hat. unfold st.
+    eapply sim_bind; [use_IH IHc sg|]. intros v w1 _.
+    destruct v as [| | [|] | | | | | | | | |]; try exact I; unfold st.
+    - vstep. vstep. vstep.
+      eapply sim_bind; [use_IHss IHss (env_push en) sg|]. intros en1 w2 E1.
+      destruct (eval_stmts_tail _ _ _ _ _ E1) as [b Hb]; [discriminate|]. cbn [tl env_push] in Hb. subst en1. unfold st.
+      vstep. vjump. vdone.
+    - vstep. vjump.
+      eapply sim_out_fin; [|eapply (IHbs lo hi en sg); eauto; lia].
+      intros [e'|] w'; unfold st; f_equal; lia.
+  Qed.
+
+  Lemma case_SIf bs fb : P_branches bs -> P_ostmts fb -> P_stmt (SIf bs fb).
+  Proof.
+    intros IHbs IHfb lo hi en sg pc w Hat Hlo Hhi. rewrite eval_stmt_SIf. autorewrite with deq in *. cbv zeta in Hat.
+    destruct fb as [|ss]; split_at Hat; norm_at.
+    - eapply sim_bind; [eapply (IHbs lo hi en sg pc (pc + sz_branches bs + 0)); eauto; lia|].
+      intros [e'|] w1 E1; cbn [sim_out]; apply mruno_done'; unfold st; try (apply eval_branches_some in E1; subst e'); f_equal; lia.
+    - cbn [P_ostmts] in IHfb.
+      eapply sim_bind; [eapply (IHbs lo hi en sg pc (pc + sz_branches bs + (1 + sz_stmts ss + 1))); eauto; lia|].
+      intros [e'|] w1 E1.
+      + cbn [sim_out]. apply mruno_done'. apply eval_branches_some in E1. subst e'. unfold st. f_equal. lia.
+      + unfold st. vstep.
+        eapply sim_bind; [use_IHss IHfb (env_push en) sg|]. intros en1 w2 E2.
+        destruct (eval_stmts_tail _ _ _ _ _ E2) as [b Hb]; [discriminate|]. cbn [tl env_push] in Hb. subst en1. unfold st.
+        vstep. vdone.
+  Qed.
+
+  Hypothesis Hfin : fin_exit = if in_recall then ER_Check else ER_Normal.
+
+  Lemma case_SFinish ss : P_stmts ss -> P_stmt (SFinish ss).
+  Proof.
+    intros IHss lo hi en sg pc w Hat Hlo Hhi. rewrite eval_stmt_SFinish. start_case Hat. unfold st.
+    vstep. vstep.
+    eapply sim_bind; [use_IHss IHss (env_push en) sg|]. intros en1 w2 E2.
+    destruct (eval_stmts_tail _ _ _ _ _ E2) as [b Hb]; [discriminate|]. cbn [tl env_push] in Hb. subst en1. unfold st.
+    vstep. cbn [sim_out]. eexists. split; [eapply (s_exit dbg io m Hlen); [lookup|cbn [Vm.exec]; vm_unf; rewrite Hfin; reflexivity|in_range]|].
+    split; reflexivity.
+  Qed.
+
+  (** ** match *)
+
+  (** a literal pattern pushes its value *)
+  Lemma lit_sim l : forall lo hi en sg pc w lv,
+    at_pc m pc (d_lit p l) -> lo <= pc -> pc + len (d_lit p l) <= hi -> lit_value p l = Some lv ->
+    mruno (Qr lo hi) (st en sg pc w) (MTo (st en (lv :: sg) (pc + len (d_lit p l)) w)).
+  Proof.
+    induction l; intros lo hi en sg pc w lv Hat Hlo Hhi Hv; cbn [d_lit lit_value] in *;
+      autorewrite with len in *; split_at Hat;
+      try (inversion Hv; subst; clear Hv; unfold st;
+           eapply (s_push dbg io m Hcm Hlen); [lookup|cbn [Vm.exec]; reflexivity|reflexivity|in_range|];
+           cbv beta iota delta [set_pc set_stack rs_stack rs_scope rs_pc rs_call_state rs_ctx rs_io rs_query_iters];
+           apply mruno_done'; cbn [const_to_value]; f_equal; lia).
+    - (* LEnum *) destruct (enum_value p enum variant) as [i|] eqn:E; [|discriminate]. cbn [option_map] in Hv.
+      inversion Hv; subst. unfold st.
+      eapply (s_push dbg io m Hcm Hlen); [lookup|cbn [Vm.exec]; reflexivity|reflexivity|in_range|].
+      cbv beta iota delta [set_pc set_stack rs_stack rs_scope rs_pc rs_call_state rs_ctx rs_io rs_query_iters].
+      apply mruno_done'; cbn [const_to_value]; f_equal; lia.
+    - destruct (lit_value p l) as [x|] eqn:E; [|discriminate]. cbn [option_map] in Hv. inversion Hv; subst.
+      eapply mruno_trans; [eapply (IHl lo hi en sg pc w x); eauto; lia|]. unfold st.
+      eapply (s_push dbg io m Hcm Hlen); [lookup|cbn [Vm.exec app]; vm_unf_np; reflexivity|reflexivity|in_range|].
+      cbv beta iota delta [set_pc set_stack rs_stack rs_scope rs_pc rs_call_state rs_ctx rs_io rs_query_iters].
+      apply mruno_done'; f_equal; lia.
+    - destruct (lit_value p l) as [x|] eqn:E; [|discriminate]. cbn [option_map] in Hv. inversion Hv; subst.
+      eapply mruno_trans; [eapply (IHl lo hi en sg pc w x); eauto; lia|]. unfold st.
+      eapply (s_push dbg io m Hcm Hlen); [lookup|cbn [Vm.exec app]; vm_unf_np; reflexivity|reflexivity|in_range|].
+      cbv beta iota delta [set_pc set_stack rs_stack rs_scope rs_pc rs_call_state rs_ctx rs_io rs_query_iters].
+      apply mruno_done'; f_equal; lia.
+    - destruct (lit_value p l) as [x|] eqn:E; [|discriminate]. cbn [option_map] in Hv. inversion Hv; subst.
+      eapply mruno_trans; [eapply (IHl lo hi en sg pc w x); eauto; lia|]. unfold st.
+      eapply (s_push dbg io m Hcm Hlen); [lookup|cbn [Vm.exec app]; vm_unf_np; reflexivity|reflexivity|in_range|].
+      cbv beta iota delta [set_pc set_stack rs_stack rs_scope rs_pc rs_call_state rs_ctx rs_io rs_query_iters].
+      apply mruno_done'; f_equal; lia.
+  Qed.
+
+  Lemma is_wrap_eq wt v :
+    match wt, v with
+    | W_Some, V_Option (Some _) => true
+    | W_Ok, V_Result (ROk _) => true
+    | W_Err, V_Result (RErr _) => true
+    | _, _ => false
+    end = match unwrap wt v with Some _ => true | None => false end.
+  Proof. destruct wt; destruct v as [| | | | | | | | | |[?|]|[?|?]]; reflexivity. Qed.
+
+  Ltac mstep_push :=
+    cbn [app]; eapply (s_push dbg io m Hcm Hlen);
+    [lookup|cbn [Vm.exec app]; vm_unf_np; reflexivity|reflexivity|in_range|];
+    cbv beta iota delta [set_pc set_stack rs_stack rs_scope rs_pc rs_call_state rs_ctx rs_io rs_query_iters].
+  Ltac mstep_go :=
+    cbn [app]; eapply (s_go dbg io m Hlen);
+    [lookup|cbn [Vm.exec app]; vm_unf; reflexivity|reflexivity|in_range|];
+    cbv beta iota delta [set_pc set_stack rs_stack rs_scope rs_pc rs_call_state rs_ctx rs_io rs_query_iters].
+  Ltac mstep_jump :=
+    cbn [app]; eapply (s_jump dbg io m Hlen);
+    [lookup|cbn [Vm.exec app]; vm_unf; reflexivity|in_range|].
+
+  (** the tests of one arm: a match branches to the arm, otherwise control falls through *)
+  Lemma tests_sim ps : forall lo hi en sg pc w v arm,
+    at_pc m pc (d_tests p ps arm) -> lo <= pc -> pc + len (d_tests p ps arm) <= hi ->
+    match any_match p v ps with
+    | None => True
+    | Some true => mruno (Qr lo hi) (st en (v :: sg) pc w) (MTo (st en (v :: sg) arm w))
+    | Some false => mruno (Qr lo hi) (st en (v :: sg) pc w) (MTo (st en (v :: sg) (pc + len (d_tests p ps arm)) w))
+    end.
+  Proof.
+    induction ps as [|pt r IH]; intros lo hi en sg pc w v arm Hat Hlo Hhi; cbn [any_match d_tests] in *.
+    - apply mruno_done'. unfold st. f_equal. autorewrite with len. lia.
+    - destruct pt as [l|wt x]; cbn [pat_match].
+      + destruct (lit_value p l) as [lv|] eqn:El; cbn [option_map]; [|exact I].
+        autorewrite with len in *. split_at Hat.
+        assert (Hpre : forall o,
+          mruno (Qr lo hi) (S (en :: outer) (V_Bool (value_eqb v lv) :: v :: sg ++ base) cs (pc + 1 + len (d_lit p l) + 1)
+                              (w_ctx w) qi (w_io w)) o ->
+          mruno (Qr lo hi) (st en (v :: sg) pc w) o).
+        { intros o Hk. unfold st. mstep_push.
+          eapply mruno_trans; [eapply (lit_sim l lo hi en (v :: v :: sg) (pc + 1) w lv); eauto; lia|]. unfold st.
+          mstep_push. exact Hk. }
+        destruct (value_eqb v lv) eqn:Ev.
+        * apply Hpre. mstep_jump. apply mruno_done'. reflexivity.
+        * specialize (IH lo hi en sg (pc + 1 + len (d_lit p l) + 1 + 1) w v arm).
+          destruct (any_match p v r) as [[|]|]; auto.
+          -- apply Hpre. mstep_go. eapply IH; eauto; try lia.
+             replace (pc + 1 + len (d_lit p l) + 1 + 1) with (pc + (0 + 1) + len (d_lit p l) + (0 + 1 + 1)) by lia. exact Hat.
+          -- apply Hpre. mstep_go. eapply mruno_trans; [eapply IH; eauto; try lia|].
+             ++ replace (pc + 1 + len (d_lit p l) + 1 + 1) with (pc + (0 + 1) + len (d_lit p l) + (0 + 1 + 1)) by lia. exact Hat.
+             ++ apply mruno_done'. unfold st. f_equal. lia.
+      + autorewrite with len in *. split_at Hat.
+        assert (Hpre : forall o,
+          mruno (Qr lo hi) (S (en :: outer) (V_Bool (match unwrap wt v with Some _ => true | None => false end) :: v :: sg ++ base)
+                              cs (pc + 1 + 1) (w_ctx w) qi (w_io w)) o ->
+          mruno (Qr lo hi) (st en (v :: sg) pc w) o).
+        { intros o Hk. unfold st. mstep_push. mstep_push. rewrite is_wrap_eq. exact Hk. }
+        destruct (unwrap wt v) as [inner|] eqn:Eu.
+        * apply Hpre. mstep_jump. apply mruno_done'. reflexivity.
+        * specialize (IH lo hi en sg (pc + 1 + 1 + 1) w v arm).
+          destruct (any_match p v r) as [[|]|]; auto.
+          -- apply Hpre. mstep_go. eapply IH; eauto; try lia.
+             replace (pc + 1 + 1 + 1) with (pc + (0 + 1 + 1 + 1)) by lia. exact Hat.
+          -- apply Hpre. mstep_go. eapply mruno_trans; [eapply IH; eauto; try lia|].
+             ++ replace (pc + 1 + 1 + 1) with (pc + (0 + 1 + 1 + 1)) by lia. exact Hat.
+             ++ apply mruno_done'. unfold st. f_equal. lia.
+  Qed.
+
+  (** which arm the reference semantics selects: [None] = undefined, [Some None] = no pattern matches *)
+  Fixpoint first_match (pats : list pattern) (v : Value) : option (option nat) :=
+    match pats with
+    | [] => Some None
+    | pt :: r =>
+      match (match pt with PDefault => Some true | PVals ps => any_match p v ps end) with
+      | None => None
+      | Some true => Some (Some O)
+      | Some false => option_map (option_map Datatypes.S) (first_match r v)
+      end
+    end.
+
+  Lemma patterns_sim pats : forall lo hi en sg pc w v addrs,
+    at_pc m pc (d_patterns p pats addrs) -> lo <= pc -> pc + len (d_patterns p pats addrs) <= hi ->
+    match first_match pats v with
+    | None => True
+    | Some (Some k) => mruno (Qr lo hi) (st en (v :: sg) pc w) (MTo (st en (v :: sg) (nth k addrs 0) w))
+    | Some None => mruno (Qr lo hi) (st en (v :: sg) pc w) (MTo (st en (v :: sg) (pc + len (d_patterns p pats addrs)) w))
+    end.
+  Proof.
+    induction pats as [|pt r IH]; intros lo hi en sg pc w v addrs Hat Hlo Hhi; cbn [first_match d_patterns] in *.
+    - apply mruno_done'. unfold st. f_equal. autorewrite with len. lia.
+    - autorewrite with len in *. split_at Hat.
+      destruct pt as [ps|]; cbn [d_pattern] in *.
+      + pose proof (tests_sim ps lo hi en sg pc w v (hd 0 addrs) Hat0 Hlo ltac:(lia)) as Ht.
+        destruct (any_match p v ps) as [[|]|]; auto.
+        * destruct addrs; exact Ht.
+        * specialize (IH lo hi en sg (pc + len (d_tests p ps (hd 0 addrs))) w v (tl addrs) Hat ltac:(lia) ltac:(lia)).
+          destruct (first_match r v) as [[k|]|]; cbn [option_map]; auto.
+          -- eapply mruno_trans; [exact Ht|]. destruct addrs; [destruct k; exact IH|exact IH].
+          -- eapply mruno_trans; [exact Ht|]. eapply mruno_trans; [exact IH|]. apply mruno_done'. unfold st. f_equal. lia.
+      + autorewrite with len in *. split_at Hat0. unfold st. mstep_jump. apply mruno_done'. destruct addrs; reflexivity.
+  Qed.
+
+  (** entering an arm: a new block, the scrutinee unwrapped into the bound variable or dropped *)
+  Lemma arm_head_sim pt lo hi en sg pc w v en' :
+    at_pc m pc (d_arm_head pt) -> lo <= pc -> pc + len (d_arm_head pt) <= hi ->
+    arm_env G en v pt = Some en' ->
+    mruno (Qr lo hi) (st en (v :: sg) pc w) (MTo (st en' sg (pc + len (d_arm_head pt)) w))
+    /\ exists b, en' = b :: en.
+  Proof.
+    intros Hat Hlo Hhi Ha. unfold arm_env, d_arm_head in *.
+    destruct (match pt with PVals ps => first_bind ps | PDefault => None end) as [[wt x]|].
+    - autorewrite with len in *. split_at Hat.
+      destruct (unwrap wt v) as [inner|] eqn:Eu; [|discriminate].
+      split; [|apply env_set_tail in Ha; exact Ha].
+      assert (Hun : forall s0,
+        rs_stack s0 = v :: sg ++ base ->
+        Vm.exec dbg io m (I_Unwrap wt) s0 = ipush m inner (set_stack s0 (sg ++ base))).
+      { intros s0 Hs0. destruct s0 as [a1 a2 a3 a4 a5 a6 a7]. cbn [rs_stack] in Hs0. subst a2.
+        cbn [Vm.exec]. vm_unf_np.
+        destruct wt; destruct v as [| | | | | | | | | |[?|]|[?|?]]; try discriminate; inversion Eu; subst; reflexivity. }
+      unfold st. mstep_go.
+      eapply (s_push dbg io m Hcm Hlen); [lookup|apply Hun; reflexivity|reflexivity|in_range|].
+      cbv beta iota delta [set_pc set_stack rs_stack rs_scope rs_pc rs_call_state rs_ctx rs_io rs_query_iters].
+      eapply (s_go dbg io m Hlen); [lookup| | |in_range|].
+      { cbn [Vm.exec app]. vm_unf. pose proof (scope_set_env _ _ _ _ Ha) as Hs.
+        match goal with |- context [match ?X with ROk _ => _ | RErr _ => _ end] =>
+          assert (Hx : X = ROk (en' :: outer)) by exact Hs; rewrite Hx end. reflexivity. }
+      { reflexivity. }
+      cbv beta iota delta [set_pc set_stack rs_stack rs_scope rs_pc rs_call_state rs_ctx rs_io rs_query_iters].
+      apply mruno_done'. f_equal. lia.
+    - autorewrite with len in *. split_at Hat. inversion Ha; subst. split; [|unfold env_push; eauto].
+      unfold st. mstep_go. mstep_go. apply mruno_done'. unfold env_push. f_equal. lia.
+  Qed.
+
+  Definition P_earms (arms : earms) : Prop := forall lo hi en sg pc0 endl v w k,
+    at_pc m pc0 (d_earms pc0 endl arms) -> lo <= pc0 -> pc0 + sz_earms arms <= hi ->
+    first_match (earms_patterns arms) v = Some (Some k) ->
+    sim_out (Qr lo hi) (st en (v :: sg) (nth k (earm_addrs p is_debug arms pc0) 0) w) (eval_earms en w v arms)
+            (fun r w' => st en (r :: sg) endl w').
+
+  Lemma case_EANil : P_earms EANil.
+  Proof. intros lo hi en sg pc0 endl v w k Hat Hlo Hhi Hk. cbn in Hk. discriminate. Qed.
+
+  Lemma case_EACons pt e arms : P_expr e -> P_earms arms -> P_earms (EACons pt e arms).
+  Proof.
+    intros IHe IHarms lo hi en sg pc0 endl v w k Hat Hlo Hhi Hk.
+    rewrite eval_earms_EACons. start_case Hat.
+    change (earms_patterns (EACons pt e arms)) with (pt :: earms_patterns arms) in Hk. cbn [first_match] in Hk.
+    cbn [earm_addrs].
+    destruct (match pt with PDefault => Some true | PVals ps => any_match p v ps end) as [[|]|]; [| |exact I].
+    - inversion Hk; subst k. cbn [nth].
+      destruct (arm_env G en v pt) as [en'|] eqn:Ea; [|exact I].
+      destruct (arm_head_sim pt lo hi en sg pc0 w v en' Hat0 Hlo ltac:(lia) Ea) as [Hh [b Hb]]. subst en'.
+      eapply sim_out_trans; [exact Hh|]. unfold st.
+      eapply sim_post; [use_IH IHe sg|]. intros r w2 _. unfold st.
+      vstep. vjump. vdone.
+    - destruct (first_match (earms_patterns arms) v) as [[k'|]|] eqn:Ef; cbn [option_map] in Hk; try discriminate.
+      inversion Hk; subst k. cbn [nth].
+      eapply (IHarms lo hi en sg); eauto; try lia.
+  Qed.
+
+  Lemma case_EMatch e arms : P_expr e -> P_earms arms -> P_expr (EMatch e arms).
+  Proof.
+    intros IHe IHarms lo hi en sg pc w Hat Hlo Hhi. rewrite eval_expr_EMatch. start_case Hat. unfold st.
+    eapply sim_bind; [use_IH IHe sg|]. intros v w1 _.
+    set (pats := earms_patterns arms) in *.
+    set (base_pc := pc + sz_expr e + len (d_patterns p pats [])) in *.
+    pose proof (patterns_sim pats lo hi en sg (pc + sz_expr e) w1 v (earm_addrs p is_debug arms base_pc) Hat1 ltac:(lia)) as Hp.
+    rewrite len_d_patterns in Hp. specialize (Hp ltac:(lia)).
+    destruct (first_match pats v) as [[k|]|] eqn:Ef.
+    - eapply sim_out_trans; [exact Hp|].
+      eapply sim_out_fin; [|eapply (IHarms lo hi en sg base_pc (base_pc + sz_earms arms) v w1 k); eauto; try lia].
+      + intros r w'. unfold st. f_equal. subst base_pc. lia.
+      + rewrite len_d_patterns in Hat. exact Hat.
+    - (* no pattern matches: the reference semantics has no rule *)
+      assert (Hw : eval_earms en w1 v arms = OWrong \/ True) by auto.
+      clear Hw.
+      assert (Hnone : forall arms', first_match (earms_patterns arms') v = Some None -> eval_earms en w1 v arms' = OWrong).
+      { induction arms' as [|pt e' r IHr]; intros Hf.
+        - apply eval_earms_EANil.
+        - rewrite eval_earms_EACons. change (earms_patterns (EACons pt e' r)) with (pt :: earms_patterns r) in Hf.
+          cbn [first_match] in Hf.
+          destruct (match pt with PDefault => Some true | PVals ps => any_match p v ps end) as [[|]|]; try discriminate.
+          apply IHr. destruct (first_match (earms_patterns r) v) as [[?|]|]; cbn in Hf; try discriminate. reflexivity. }
+      rewrite (Hnone arms Ef). exact I.
+    - assert (Hnone : forall arms', first_match (earms_patterns arms') v = None -> eval_earms en w1 v arms' = OWrong).
+      { induction arms' as [|pt e' r IHr]; intros Hf.
+        - cbn in Hf. discriminate.
+        - rewrite eval_earms_EACons. change (earms_patterns (EACons pt e' r)) with (pt :: earms_patterns r) in Hf.
+          cbn [first_match] in Hf.
+          destruct (match pt with PDefault => Some true | PVals ps => any_match p v ps end) as [[|]|]; try discriminate; auto.
+          apply IHr. destruct (first_match (earms_patterns r) v) as [[?|]|]; cbn in Hf; try discriminate. reflexivity. }
+      rewrite (Hnone arms Ef). exact I.
+  Qed.
+
+  Definition P_sarms (arms : sarms) : Prop := forall lo hi en sg pc0 endl v w k,
+    at_pc m pc0 (d_sarms pc0 endl arms) -> lo <= pc0 -> pc0 + sz_sarms arms <= hi ->
+    first_match (sarms_patterns arms) v = Some (Some k) ->
+    sim_out (Qr lo hi) (st en (v :: sg) (nth k (sarm_addrs p is_debug arms pc0) 0) w) (eval_sarms en w v arms)
+            (fun en' w' => st en' sg endl w').
+
+  Lemma case_SANil : P_sarms SANil.
+  Proof. intros lo hi en sg pc0 endl v w k Hat Hlo Hhi Hk. cbn in Hk. discriminate. Qed.
+
+  Lemma case_SACons pt ss arms : P_stmts ss -> P_sarms arms -> P_sarms (SACons pt ss arms).
+  Proof.
+    intros IHss IHarms lo hi en sg pc0 endl v w k Hat Hlo Hhi Hk.
+    rewrite eval_sarms_SACons. start_case Hat.
+    change (sarms_patterns (SACons pt ss arms)) with (pt :: sarms_patterns arms) in Hk. cbn [first_match] in Hk.
+    cbn [sarm_addrs].
+    destruct (match pt with PDefault => Some true | PVals ps => any_match p v ps end) as [[|]|]; [| |exact I].
+    - inversion Hk; subst k. cbn [nth].
+      destruct (arm_env G en v pt) as [en'|] eqn:Ea; [|exact I].
+      destruct (arm_head_sim pt lo hi en sg pc0 w v en' Hat0 Hlo ltac:(lia) Ea) as [Hh [b Hb]]. subst en'.
+      eapply sim_out_trans; [exact Hh|]. unfold st.
+      eapply sim_bind; [use_IHss IHss (b :: en) sg|]. intros en1 w2 E1.
+      destruct (eval_stmts_tail _ _ _ _ _ E1) as [b' Hb']; [discriminate|]. cbn [tl] in Hb'. subst en1. unfold st.
+      vstep. vjump. vdone.
+    - destruct (first_match (sarms_patterns arms) v) as [[k'|]|] eqn:Ef; cbn [option_map] in Hk; try discriminate.
+      inversion Hk; subst k. cbn [nth].
+      eapply (IHarms lo hi en sg); eauto; try lia.
+  Qed.
+
+  Lemma case_SMatch e arms : P_expr e -> P_sarms arms -> P_stmt (SMatch e arms).
+  Proof.
+    intros IHe IHarms lo hi en sg pc w Hat Hlo Hhi. rewrite eval_stmt_SMatch. start_case Hat. unfold st.
+    eapply sim_bind; [use_IH IHe sg|]. intros v w1 _.
+    set (pats := sarms_patterns arms) in *.
+    set (base_pc := pc + sz_expr e + len (d_patterns p pats [])) in *.
+    pose proof (patterns_sim pats lo hi en sg (pc + sz_expr e) w1 v (sarm_addrs p is_debug arms base_pc) Hat1 ltac:(lia)) as Hp.
+    rewrite len_d_patterns in Hp. specialize (Hp ltac:(lia)).
+    destruct (first_match pats v) as [[k|]|] eqn:Ef.
+    - eapply sim_out_trans; [exact Hp|].
+      eapply sim_out_fin; [|eapply (IHarms lo hi en sg base_pc (base_pc + sz_sarms arms) v w1 k); eauto; try lia].
+      + intros r w'. unfold st. f_equal. subst base_pc. lia.
+      + rewrite len_d_patterns in Hat. exact Hat.
+    - assert (Hnone : forall arms', first_match (sarms_patterns arms') v = Some None -> eval_sarms en w1 v arms' = OWrong).
+      { induction arms' as [|pt e' r IHr]; intros Hf.
+        - apply eval_sarms_SANil.
+        - rewrite eval_sarms_SACons. change (sarms_patterns (SACons pt e' r)) with (pt :: sarms_patterns r) in Hf.
+          cbn [first_match] in Hf.
+          destruct (match pt with PDefault => Some true | PVals ps => any_match p v ps end) as [[|]|]; try discriminate.
+          apply IHr. destruct (first_match (sarms_patterns r) v) as [[?|]|]; cbn in Hf; try discriminate. reflexivity. }
+      rewrite (Hnone arms Ef). exact I.
+    - assert (Hnone : forall arms', first_match (sarms_patterns arms') v = None -> eval_sarms en w1 v arms' = OWrong).
+      { induction arms' as [|pt e' r IHr]; intros Hf.
+        - cbn in Hf. discriminate.
+        - rewrite eval_sarms_SACons. change (sarms_patterns (SACons pt e' r)) with (pt :: sarms_patterns r) in Hf.
+          cbn [first_match] in Hf.
+          destruct (match pt with PDefault => Some true | PVals ps => any_match p v ps end) as [[|]|]; try discriminate; auto.
+          apply IHr. destruct (first_match (sarms_patterns r) v) as [[?|]|]; cbn in Hf; try discriminate. reflexivity. }
+      rewrite (Hnone arms Ef). exact I.
+  Qed.
+
+  (** ** Calls *)
+  Definition P_exprs (es : exprs) : Prop := forall lo hi en sg pc w,
+    at_pc m pc (d_exprs pc es) -> lo <= pc -> pc + sz_exprs es <= hi ->
+    sim_out (Qr lo hi) (st en sg pc w) (eval_exprs en w es) (fun vs w' => st en (rev vs ++ sg) (pc + sz_exprs es) w').
+
+  Lemma case_ENil : P_exprs ENil.
+  Proof.
+    intros lo hi en sg pc w Hat Hlo Hhi. rewrite eval_exprs_ENil. autorewrite with deq in *. cbn [sim_out].
+    apply mruno_done'. unfold st. cbn [rev app]. f_equal. lia.
+  Qed.
+  Lemma case_ECons e es : P_expr e -> P_exprs es -> P_exprs (ECons e es).
+  Proof.
+    intros IHe IHes lo hi en sg pc w Hat Hlo Hhi. rewrite eval_exprs_ECons. start_case Hat. unfold st.
+    eapply sim_bind; [use_IH IHe sg|]. intros v w1 _.
+    eapply sim_bind; [eapply (IHes lo hi en (v :: sg)); eauto; lia|]. intros vs w2 _.
+    cbn [sim_out]. apply mruno_done'. unfold st. f_equal; [cbn [rev]; repeat rewrite <- app_assoc; reflexivity|lia].
+  Qed.
+
+  (** What a callee does, seen from the state the call instruction leaves: the arguments on the
+      stack, a fresh function scope, the return address on the call stack. *)
+  Definition call_spec {A} (lbl : ident -> Label) (callee : ident -> list Value -> world St -> outcome St A)
+      (push : A -> list Value -> list Value) : Prop :=
+    forall f vs w scs sg0 cs0 ra qi0,
+      ra < len (progmem m) ->
+      let s := S ([ [] ] :: scs) (rev vs ++ sg0) (ra :: cs0) (la (lbl f)) (w_ctx w) qi0 (w_io w) in
+      let Qd := fun s' : RS => (List.length (ra :: cs0) <= depth s')%nat in
+      match callee f vs w with
+      | OVal a w' => mruno Qd s (MTo (S scs (push a sg0) cs0 (ra + 1) (w_ctx w') qi0 (w_io w')))
+      | OExit r w' => exists s', mruno Qd s (MExit r s') /\ rs_io s' = w_io w' /\ rs_ctx s' = w_ctx w'
+      | OErr e w' => exists s', mruno Qd s (MErr e s') /\ rs_io s' = w_io w'
+      | ORet _ _ => False
+      | OWrong | OFuel => True
+      end.
+
+  Hypothesis Hcall_fun : call_spec (fun f => mkLabel f LT_Function) call_fun (fun v sg => v :: sg).
+  Hypothesis Hcall_fin : call_spec (fun f => mkLabel f LT_Function) call_fin (fun _ sg => sg).
+  Hypothesis Hcall_recall : call_spec (fun n => recall_label cmd n) call_recall (fun _ sg => sg).
+
+  (** the callee's states are deeper than the caller's frame *)
+  Lemma Qd_Qr lo hi ra (s : RS) : (List.length (ra :: cs) <= depth s)%nat -> Qr lo hi s.
+  Proof. cbn [List.length]. intros H. split; [lia|intros E; lia]. Qed.
+
+  Lemma call_sim {A} lbl (callee : ident -> list Value -> world St -> outcome St A) push lo hi en sg pc w f vs
+      (fin : A -> world St -> RS) :
+    call_spec lbl callee push ->
+    nth_error (progmem m) (N.to_nat pc) = Some (I_Call (T_Resolved (la (lbl f)))) ->
+    lo <= pc < hi ->
+    (forall a w', S (en :: outer) (push a (sg ++ base)) cs (pc + 1) (w_ctx w') qi (w_io w') = fin a w') ->
+    sim_out (Qr lo hi) (st en (rev vs ++ sg) pc w) (callee f vs w) fin.
+  Proof.
+    intros Hspec Hi Hr Hfn.
+    assert (Hpc : pc < len (progmem m)) by (eapply nth_lt; eauto).
+    specialize (Hspec f vs w (en :: outer) (sg ++ base) cs pc qi Hpc). cbv zeta in Hspec.
+    assert (Hcallstep : forall o,
+      mruno (Qr lo hi) (S ([ [] ] :: en :: outer) (rev vs ++ sg ++ base) (pc :: cs) (la (lbl f)) (w_ctx w) qi (w_io w)) o ->
+      mruno (Qr lo hi) (st en (rev vs ++ sg) pc w) o).
+    { intros o Hk. unfold st. rewrite <- app_assoc.
+      eapply (s_jump dbg io m Hlen); [lookup|cbn [Vm.exec]; vm_unf; reflexivity|in_range|exact Hk]. }
+    destruct (callee f vs w) as [a w'|v w'|r w'|e w'| |]; cbn [sim_out]; auto.
+    - apply Hcallstep. eapply mruno_weaken; [|rewrite <- Hfn; exact Hspec]. intros x Hx. apply (Qd_Qr lo hi pc). exact Hx.
+    - contradiction.
+    - destruct Hspec as (s' & Hm & Hio). exists s'. split; auto.
+      apply Hcallstep. eapply mruno_weaken; [|exact Hm]. intros x Hx. apply (Qd_Qr lo hi pc). exact Hx.
+    - destruct Hspec as (s' & Hm & Hio). exists s'. split; auto.
+      apply Hcallstep. eapply mruno_weaken; [|exact Hm]. intros x Hx. apply (Qd_Qr lo hi pc). exact Hx.
+  Qed.
+
+  Lemma builtin_cases f :
+    (builtin_instr f = None /\ forall vs, eval_builtin f vs = None)
+    \/ exists i g, builtin_instr f = Some i
+         /\ (forall vs, eval_builtin f vs = Some (match vs with [a; b] => int_op g a b | _ => None end))
+         /\ (forall s0 x y sg0, rs_stack s0 = V_Int y :: V_Int x :: sg0 ->
+              Vm.exec dbg io m i s0 = ipush m (g x y) (set_stack s0 sg0)).
+  Proof.
+    unfold builtin_instr, eval_builtin.
+    destruct (String.eqb f "add"); [right; do 2 eexists; split; [reflexivity|split; [intros [|? [|? [|? ?]]]; reflexivity|]]|].
+    { intros [a1 a2 a3 a4 a5 a6 a7] x y sg0 Hs. cbn [rs_stack] in Hs. subst a2. cbn [Vm.exec]. vm_unf_np. reflexivity. }
+    destruct (String.eqb f "saturating_add"); [right; do 2 eexists; split; [reflexivity|split; [intros [|? [|? [|? ?]]]; reflexivity|]]|].
+    { intros [a1 a2 a3 a4 a5 a6 a7] x y sg0 Hs. cbn [rs_stack] in Hs. subst a2. cbn [Vm.exec]. vm_unf_np. reflexivity. }
+    destruct (String.eqb f "sub"); [right; do 2 eexists; split; [reflexivity|split; [intros [|? [|? [|? ?]]]; reflexivity|]]|].
+    { intros [a1 a2 a3 a4 a5 a6 a7] x y sg0 Hs. cbn [rs_stack] in Hs. subst a2. cbn [Vm.exec]. vm_unf_np. reflexivity. }
+    destruct (String.eqb f "saturating_sub"); [right; do 2 eexists; split; [reflexivity|split; [intros [|? [|? [|? ?]]]; reflexivity|]]|].
+    { intros [a1 a2 a3 a4 a5 a6 a7] x y sg0 Hs. cbn [rs_stack] in Hs. subst a2. cbn [Vm.exec]. vm_unf_np. reflexivity. }
+    left. split; [reflexivity|intros; reflexivity].
+  Qed.
+
+  Lemma case_ECall f args : P_exprs args -> P_expr (ECall f args).
+  Proof.
+    intros IHa lo hi en sg pc w Hat Hlo Hhi. rewrite eval_expr_ECall. start_case Hat. unfold st.
+    eapply sim_bind; [eapply (IHa lo hi en sg); eauto; lia|]. intros vs w1 _.
+    unfold d_call in Hat1.
+    destruct (builtin_cases f) as [[Hb He]|(i & g & Hb & He & Hx)]; rewrite Hb in Hat1; rewrite He.
+    - eapply call_sim; eauto; try lia. intros a w'. unfold st. f_equal. lia.
+    - destruct vs as [|a [|b [|c r]]]; try exact I.
+      unfold int_op. destruct a; try exact I. destruct b; try exact I.
+      unfold st. cbn [rev app].
+      eapply sim_lift.
+      + intros o Hk. eapply (s_push dbg io m Hcm Hlen); [lookup|apply Hx; reflexivity|reflexivity|in_range|exact Hk].
+      + cbv beta iota delta [set_pc set_stack rs_stack rs_scope rs_pc rs_call_state rs_ctx rs_io rs_query_iters]. vdone.
+  Qed.
+
+
+  Lemma case_SCall f args : P_exprs args -> P_stmt (SCall f args).
+  Proof.
+    intros IHa lo hi en sg pc w Hat Hlo Hhi. rewrite eval_stmt_SCall. start_case Hat. unfold st.
+    eapply sim_bind; [eapply (IHa lo hi en sg); eauto; lia|]. intros vs w1 _.
+    unfold d_call in Hat1.
+    destruct (builtin_cases f) as [[Hb He]|(i & g & Hb & He & Hx)]; rewrite He; [|exact I].
+    rewrite Hb in Hat1.
+    eapply sim_bind with (fin := fun (_ : unit) w' => st en sg (pc + (sz_exprs args + 1)) w').
+    - eapply call_sim; eauto; try lia. intros a w'. unfold st. f_equal. lia.
+    - intros [] w2 _. cbn [sim_out]. apply mruno_done'. reflexivity.
+  Qed.
+
+  (** [recall name(args)]: [this] and [envelope] are passed along, the context becomes a recall context *)
+  Lemma recall_sim {B} lo hi en sg pc w name vs (fin : B -> world St -> RS) :
+    at_pc m pc (d_recall la cmd name) -> lo <= pc -> pc + 3 <= hi ->
+    sim_out (Qr lo hi) (st en (rev vs ++ sg) pc w)
+      (match env_get G "this" en, env_get G "envelope" en, w_ctx w with
+       | Some this, Some envelope, CC_Policy c =>
+         obind (call_recall name (vs ++ [this; envelope])%list (mkWorld (w_io w) (CC_Recall c)))
+               (fun _ _ => @OWrong St B)
+       | _, _, _ => OWrong
+       end) fin.
+  Proof.
+    intros Hat Hlo Hhi. unfold d_recall in Hat. split_at Hat.
+    destruct (env_get G "this" en) as [this|] eqn:Et; [|exact I].
+    destruct (env_get G "envelope" en) as [envelope|] eqn:Ee; [|exact I].
+    destruct (w_ctx w) as [| | |c|] eqn:Ec; try exact I.
+    assert (Hpc : pc + 1 + 1 < len (progmem m)) by (eapply nth_lt; eauto).
+    pose proof (Hcall_recall name (vs ++ [this; envelope]) (mkWorld (w_io w) (CC_Recall c)) (en :: outer) (sg ++ base) cs
+                             (pc + 1 + 1) qi Hpc) as Hspec. cbv zeta in Hspec. cbn [w_ctx w_io] in Hspec.
+    assert (Hpre : forall o,
+      mruno (Qr lo hi) (S ([ [] ] :: en :: outer) (rev (vs ++ [this; envelope]) ++ sg ++ base) (pc + 1 + 1 :: cs)
+                          (la (recall_label cmd name)) (CC_Recall c) qi (w_io w)) o ->
+      mruno (Qr lo hi) (st en (rev vs ++ sg) pc w) o).
+    { intros o Hk. unfold st. rewrite Ec.
+      eapply (s_push dbg io m Hcm Hlen); [lookup| |reflexivity|in_range|].
+      { cbn [Vm.exec]. vm_unf_np. rewrite (scope_get_env _ _ _ Et). reflexivity. }
+      cbv beta iota delta [set_pc set_stack rs_stack rs_scope rs_pc rs_call_state rs_ctx rs_io rs_query_iters].
+      eapply (s_push dbg io m Hcm Hlen); [lookup| |reflexivity|in_range|].
+      { cbn [Vm.exec]. vm_unf_np. rewrite (scope_get_env _ _ _ Ee). reflexivity. }
+      cbv beta iota delta [set_pc set_stack rs_stack rs_scope rs_pc rs_call_state rs_ctx rs_io rs_query_iters].
+      eapply (s_jump dbg io m Hlen); [lookup|cbn [Vm.exec]; vm_unf; reflexivity|in_range|].
+      rewrite rev_app_distr in Hk. cbn [rev app] in Hk. rewrite <- app_assoc. exact Hk. }
+    destruct (call_recall name (vs ++ [this; envelope]) (mkWorld (w_io w) (CC_Recall c))) as [a w'|v w'|r w'|e w'| |];
+      cbn [obind sim_out]; auto.
+    - contradiction.
+    - destruct Hspec as (s' & Hm & Hio). exists s'. split; auto.
+      apply Hpre. eapply mruno_weaken; [|exact Hm]. intros x Hx. apply (Qd_Qr lo hi (pc + 1 + 1)). exact Hx.
+    - destruct Hspec as (s' & Hm & Hio). exists s'. split; auto.
+      apply Hpre. eapply mruno_weaken; [|exact Hm]. intros x Hx. apply (Qd_Qr lo hi (pc + 1 + 1)). exact Hx.
+  Qed.
+
+  Lemma case_ERecall name args : P_exprs args -> P_expr (ERecall name args).
+  Proof.
+    intros IHa lo hi en sg pc w Hat Hlo Hhi. rewrite eval_expr_ERecall. start_case Hat. unfold st.
+    eapply sim_bind; [eapply (IHa lo hi en sg); eauto; lia|]. intros vs w1 _.
+    eapply (recall_sim lo hi en sg (pc + sz_exprs args) w1 name vs); eauto; try lia.
+  Qed.
+  Lemma case_SRecall name args : P_exprs args -> P_stmt (SRecall name args).
+  Proof.
+    intros IHa lo hi en sg pc w Hat Hlo Hhi. rewrite eval_stmt_SRecall. start_case Hat. unfold st.
+    eapply sim_bind; [eapply (IHa lo hi en sg); eauto; lia|]. intros vs w1 _.
+    eapply (recall_sim lo hi en sg (pc + sz_exprs args) w1 name vs); eauto; try lia.
+  Qed.
+
+  (** ** Struct literals *)
+  Definition P_fields (fs : fields) : Prop := forall lo hi en sg pc w name def acc,
+    at_pc m pc (d_fields pc fs) -> lo <= pc -> pc + sz_fields fs <= hi ->
+    struct_fields_of p name = Some def ->
+    sim_out (Qr lo hi) (st en (V_Struct (mkStruct name acc) :: sg) pc w) (eval_fields en w fs def acc)
+            (fun acc' w' => st en (V_Struct (mkStruct name acc') :: sg) (pc + sz_fields fs) w').
+
+  Lemma existsb_field_of f def :
+    existsb (fun f0 => String.eqb (Field_name f0) f) (map field_of def) = existsb (fun fd => String.eqb (fst fd) f) def.
+  Proof. induction def as [|d r IH]; cbn; auto. rewrite IH. reflexivity. Qed.
+
+  Lemma case_FNil : P_fields FNil.
+  Proof.
+    intros lo hi en sg pc w name def acc Hat Hlo Hhi Hd. rewrite eval_fields_FNil. autorewrite with deq in *.
+    cbn [sim_out]. apply mruno_done'. unfold st. f_equal. lia.
+  Qed.
+  Lemma case_FCons f e fs : P_expr e -> P_fields fs -> P_fields (FCons f e fs).
+  Proof.
+    intros IHe IHfs lo hi en sg pc w name def acc Hat Hlo Hhi Hd. rewrite eval_fields_FCons. start_case Hat. unfold st.
+    eapply sim_bind; [use_IH IHe (V_Struct (mkStruct name acc) :: sg)|]. intros v w1 _.
+    destruct (existsb (fun fd => String.eqb (fst fd) f) def) eqn:Ex; [|exact I]. unfold st.
+    eapply sim_lift.
+    - intros o Hk. eapply (s_push dbg io m Hcm Hlen); [lookup| | |in_range|exact Hk].
+      + cbn [Vm.exec app]. vm_unf_np. cbn [Struct_name Struct_fields]. rewrite Hsd, Hd. cbn [option_map StructDef_items].
+        rewrite existsb_field_of, Ex. reflexivity.
+      + reflexivity.
+    - cbv beta iota delta [set_pc set_stack rs_stack rs_scope rs_pc rs_call_state rs_ctx rs_io rs_query_iters].
+      eapply sim_out_fin; [|eapply (IHfs lo hi en sg (pc + sz_expr e + 1) w1 name def); eauto; lia].
+      intros a w'. unfold st. f_equal. lia.
+  Qed.
+
+  Lemma case_EStruct name fs : P_fields fs -> P_expr (EStruct name fs).
+  Proof.
+    intros IHfs lo hi en sg pc w Hat Hlo Hhi. rewrite eval_expr_EStruct. start_case Hat.
+    destruct (struct_fields_of p name) as [def|] eqn:Hd; [|exact I]. unfold st.
+    vstep.
+    eapply sim_bind; [eapply (IHfs lo hi en sg (pc + 1) w name def []); eauto; lia|]. intros flds w1 _.
+    cbn [sim_out]. apply mruno_done'. unfold st. f_equal. lia.
+  Qed.
+
+  (** ** All of the fragment *)
+  Theorem sim_all :
+    (forall e, fr_expr e = true -> P_expr e)
+    /\ (forall es, fr_exprs es = true -> P_exprs es)
+    /\ (forall fs, fr_fields fs = true -> P_fields fs)
+    /\ (forall s, fr_stmt s = true -> P_stmt s)
+    /\ (forall ss, fr_stmts ss = true -> P_stmts ss)
+    /\ (forall o, fr_ostmts o = true -> P_ostmts o)
+    /\ (forall o : ovals, True)
+    /\ (forall a, fr_earms a = true -> P_earms a)
+    /\ (forall a, fr_sarms a = true -> P_sarms a)
+    /\ (forall b, fr_branches b = true -> P_branches b).
+  Proof.
+    apply syntax_mutind; intros; auto;
+      match goal with H : _ = true |- _ => cbn in H; try discriminate end;
+      repeat match goal with H : _ && _ = true |- _ => apply andb_prop in H; destruct H end.
+    all: first
+      [ apply case_EUnit | apply case_EInt | apply case_EStr | apply case_EBool | apply case_EEnum | apply case_ENone
+      | apply case_EWrap; auto | apply case_EVar | apply case_EStruct; auto | apply case_EDot; auto
+      | apply case_EAnd; auto | apply case_EOr; auto | apply case_ENot; auto | apply case_EBin; auto
+      | apply case_EIs; auto | apply case_ECoalesce; auto | apply case_EIf; auto | apply case_EBlock; auto
+      | apply case_EMatch; auto | apply case_ECall; auto | apply case_EReturn; auto | apply case_ERecall; auto
+      | apply case_ETodo | apply case_ENil | apply case_ECons; auto | apply case_FNil | apply case_FCons; auto
+      | apply case_SLet; auto | apply case_SCheck; auto | apply case_SIf; auto | apply case_SMatch; auto
+      | apply case_SReturn; auto | apply case_SFinish; auto | apply case_SCall; auto | apply case_SRecall; auto
+      | apply case_SDebugAssert; auto | apply case_SNil | apply case_SCons; auto
+      | apply case_EANil | apply case_EACons; auto | apply case_SANil | apply case_SACons; auto
+      | apply case_BNil | apply case_BCons; auto | exact I | idtac ].
+    cbn [P_ostmts]. auto.
+  Qed.
+End Sim.
